@@ -368,6 +368,24 @@ def run_shard(ctx):
         if len(b) > 16384:
             ctx.count("large_inventories_over_one_bufsize")
         eval_chunks(ctx, case, one, [[16384], [16383], [4097], [1000, 7], [R.randint(100, 5000) for _ in range(5)]])
+    # single very long uncompressed lines (format 1 entries, header lines of both formats): longer than the reader's 16 KiB block, delivered in reads of every size
+    for j, ln in enumerate([3000, 16384, 16385, 20000] if quick else [3000, 16383, 16384, 16385, 20000, 40000, 70000]):
+        if (ctx.shard + j) % 4 != 2 and quick:
+            continue
+        long_ = "L" * ln
+        variants = {
+            "v1-long-location": ser_v1("P", "1", ["alpha mod a.html", f"omega class {long_}.html", "omega2 class o2.html"]),
+            "v1-long-name": ser_v1("P", "1", ["alpha mod a.html", f"{long_} class l.html", "omega2 class o2.html"]),
+            "v2-long-project": ser_v2(long_, "1", v2_lines([("n", "py:function", "1", "x.html#$", "-")])),
+            "v2-long-version": ser_v2("P", long_, v2_lines([("n", "py:function", "1", "x.html#$", "-")])),
+            "v1-long-project": ser_v1(long_, "1", ["alpha mod a.html"]),
+        }
+        for vn, b in variants.items():
+            case = {"kind": "load", "format": vn[:2], "rows": [], "bytes": {"__bytes__": b.hex()}, "note": f"{vn} of {ln} bytes"}
+            one = eval_load(ctx, case)
+            ctx.case(("longline", vn, ln), nontrivial=True)
+            ctx.count("long_line_inventories")
+            eval_chunks(ctx, case, one, [[16384], [100], [4096, 1], [R.randint(1, 300) for _ in range(4)]] + ([[1], [7]] if ln <= 3000 or not quick else [[7]]))
     # large and very REGULAR tables (api listings): one 16 KiB block of compressed input expands to several hundred KiB
     for n in ([R.randint(20000, 36000)] if quick else [R.randint(20000, 36000), R.randint(40000, 80000)]):
         if ctx.shard % 4 != 1 and quick:
@@ -386,6 +404,6 @@ def run_shard(ctx):
 
 def finalize(m, tier):
     c = m["counters"]
-    for k, lo in (("agree_with_sphinx", 50), ("chunked_loads_with_4plus_reads", 100), ("mutations", 30), ("roundtrips", 30), ("loads_v1", 1), ("large_inventories_over_one_bufsize", 1), ("regular_large_inventories_expanding_16x", 1)):
+    for k, lo in (("agree_with_sphinx", 50), ("chunked_loads_with_4plus_reads", 100), ("mutations", 30), ("roundtrips", 30), ("loads_v1", 1), ("large_inventories_over_one_bufsize", 1), ("regular_large_inventories_expanding_16x", 1), ("long_line_inventories", 5)):
         if c.get(k, 0) < lo:
             m["inconclusive"].append(f"monitor observed only {c.get(k, 0)} '{k}' events (< {lo})")
